@@ -50,6 +50,18 @@ func modelProbes(thorough bool, kind string, probes map[string]*probeOutcome, em
 	}
 }
 
+func heavyCyclic(c Case) bool {
+	if c.Kind != "cyclic" {
+		return false
+	}
+	for _, sc := range cyclicScns {
+		if sc.Name == c.Scn && sc.QuickOne != 0 && sc.QuickOne == c.Arg {
+			return true
+		}
+	}
+	return false
+}
+
 type probeOutcome struct {
 	done  bool
 	code  string
@@ -60,31 +72,71 @@ type probeOutcome struct {
 
 func probeKey(c Case) string { return c.Kind + "|" + c.Scn + "|" + strconv.Itoa(c.Arg) }
 
-// modelFollowups: phase C. API follow-ups only on accepted models; none where validating the model already costs more
-// than the follow-up budget (every follow-up would re-validate: same mechanism, same verdict, counted as skipped).
-func modelFollowups(thorough bool, probes map[string]*probeOutcome, emit func(Case), skipped func(why string, n int64)) {
-	budget := int64(1500)
-	if thorough {
-		budget = 15000
+// followLimit: the largest scenario argument whose model gets follow-up RPCs (static, so that the set of executed cases
+// does not depend on measured times). Depth / chain / exponential families are bounded tighter than the size families.
+func followLimit(scn string, thorough bool) int {
+	switch {
+	case strings.HasPrefix(scn, "exp-"):
+		if thorough {
+			return 14
+		}
+		return 12
+	case scn == "computed-chain":
+		if thorough {
+			return 300
+		}
+		return 100
+	case strings.HasSuffix(scn, "-depth"), scn == "cond-parens", scn == "cond-not", scn == "cond-listlit", scn == "cond-ternary":
+		if thorough {
+			return 1000
+		}
+		return 100
 	}
+	if thorough {
+		return 1 << 30
+	}
+	return 1000
+}
+
+// slowUnwind: ListUsers (and AuthZEN SubjectSearch on top of it) keeps expanding after its deadline on deeply nested
+// rewrites and answers between 1x and 25x the deadline depending on scheduling; such cases sit on the watchdog
+// boundary and cannot be decided reproducibly, so they are not part of the sweep (reported as an observation).
+func slowUnwind(scn string, arg int, rpc string) bool {
+	return (rpc == "ListUsers" || rpc == "authzen.SubjectSearch") && strings.HasSuffix(scn, "-depth") && arg >= 1000
+}
+
+// modelFollowups: phase C. API follow-ups only on accepted models; pre-existing models only where the probe returned.
+func modelFollowups(thorough bool, probes map[string]*probeOutcome, emit func(Case), skipped func(why string, n int64)) {
 	cfgs := []string{"", "exp", "shadow"}
 	for _, sc := range modelScns {
 		for _, a := range sc.Args(thorough) {
 			n := int64(len(cfgs) * len(modelFollowRPCs))
+			if a > followLimit(sc.Name, thorough) {
+				skipped("model_followups_beyond_static_follow_limit", 2*n-1)
+				continue
+			}
+			run := func(kind string) {
+				for _, cfg := range cfgs {
+					for _, rpc := range modelFollowRPCs {
+						if kind == "stored-model" && cfg == "" && rpc == "Check" {
+							continue // was the probe
+						}
+						if slowUnwind(sc.Name, a, rpc) {
+							skipped("followups_excluded_listusers_slow_unwind", 1)
+							continue
+						}
+						emit(Case{Kind: kind, RPC: rpc, Cfg: cfg, Scn: sc.Name, Arg: a})
+					}
+				}
+			}
 			api := probes[probeKey(Case{Kind: "model", Scn: sc.Name, Arg: a})]
 			switch {
 			case api == nil || !api.done || api.dead:
 				skipped("model_followups_skipped_write_did_not_return", n)
 			case api.code != "OK":
 				skipped("model_followups_skipped_model_rejected", n)
-			case api.cpuMs > budget:
-				skipped("model_followups_skipped_validation_over_cpu_budget", n)
 			default:
-				for _, cfg := range cfgs {
-					for _, rpc := range modelFollowRPCs {
-						emit(Case{Kind: "model", RPC: rpc, Cfg: cfg, Scn: sc.Name, Arg: a})
-					}
-				}
+				run("model")
 			}
 			st := probes[probeKey(Case{Kind: "stored-model", Scn: sc.Name, Arg: a})]
 			switch {
@@ -93,18 +145,9 @@ func modelFollowups(thorough bool, probes map[string]*probeOutcome, emit func(Ca
 			case !st.done || st.dead:
 				skipped("stored_model_followups_skipped_probe_did_not_return", n-1)
 			case st.inapp:
-				skipped("stored_model_followups_skipped_datastore_refused_model", n-1)
-			case st.cpuMs > budget:
-				skipped("stored_model_followups_skipped_validation_over_cpu_budget", n-1)
+				skipped("stored_model_followups_skipped_model_cannot_pre_exist", n-1)
 			default:
-				for _, cfg := range cfgs {
-					for _, rpc := range modelFollowRPCs {
-						if cfg == "" && rpc == "Check" {
-							continue // was the probe
-						}
-						emit(Case{Kind: "stored-model", RPC: rpc, Cfg: cfg, Scn: sc.Name, Arg: a})
-					}
-				}
+				run("stored-model")
 			}
 		}
 	}
@@ -146,6 +189,9 @@ func enumerate(thorough bool, emit func(Case)) {
 		for _, fld := range carrierFields {
 			for _, op := range storedTupleOps(fld, thorough) {
 				for _, cfg := range cfgs {
+					if !thorough && cfg == "shadow" {
+						continue
+					}
 					for _, rpc := range storedTupleRPCs {
 						emit(Case{Kind: "stored-tuple", RPC: rpc, Cfg: cfg, Scn: cr, Fld: fld, Op: op})
 					}
@@ -158,6 +204,9 @@ func enumerate(thorough bool, emit func(Case)) {
 		for _, a := range sc.Args {
 			for _, cfg := range cfgs {
 				for _, rpc := range graphRPCs {
+					if !thorough && sc.QuickOne != 0 && a == sc.QuickOne && !(cfg == "" && rpc == sc.QuickRPC) {
+						continue // quick: the decisive parameter of this scenario runs on one RPC / configuration only
+					}
 					emit(Case{Kind: "cyclic", RPC: rpc, Cfg: cfg, Scn: sc.Name, Arg: a})
 				}
 			}
@@ -166,17 +215,31 @@ func enumerate(thorough bool, emit func(Case)) {
 	if !thorough {
 		return
 	}
-	// all double replacements on the four most complex RPCs
+	// all double replacements on the four most complex RPCs (alphabet without its heavy members, see doubleOK)
 	for _, rpc := range doubleRPCs {
-		ts := targets[rpc]
+		ts, base := targets[rpc], ""
+		if rpc == "WriteAuthorizationModel" {
+			base = "small"
+			ts = Targets(smallWAM(env{StoreID: phID, ModelID: phID}), thorough)
+			for _, t := range ts {
+				for _, op := range t.Ops {
+					emit(Case{Kind: "mut", RPC: rpc, Base: base, Muts: []Mut{{t.Path, op}}})
+				}
+			}
+		}
 		for i := 0; i < len(ts); i++ {
 			for j := i + 1; j < len(ts); j++ {
 				if isPrefix(ts[i].Path, ts[j].Path) {
 					continue
 				}
 				for _, a := range ts[i].Ops {
+					if !doubleOK(a) {
+						continue
+					}
 					for _, b := range ts[j].Ops {
-						emit(Case{Kind: "mut", RPC: rpc, Muts: []Mut{{ts[i].Path, a}, {ts[j].Path, b}}})
+						if doubleOK(b) {
+							emit(Case{Kind: "mut", RPC: rpc, Base: base, Muts: []Mut{{ts[i].Path, a}, {ts[j].Path, b}}})
+						}
 					}
 				}
 			}
@@ -436,6 +499,7 @@ type tally struct {
 	slowCase string
 	slow     []slowRec
 	cpuMs    int64
+	cpuBy    map[string]int64
 	overDl   int64
 	recycles int64
 	spawns   int64
@@ -500,6 +564,14 @@ func (ck *checker) account(c Case, res *Result) {
 		ck.t.overDl++
 	}
 	ck.t.cpuMs += res.CPUMs
+	ck.t.cpuBy[c.Kind] += res.CPUMs
+	if verbose {
+		k := c.Kind + "/" + c.Scn + "/" + c.Op
+		for _, m := range c.Muts {
+			k += "/" + m.Op
+		}
+		ck.t.cpuBy[k] += res.CPUMs
+	}
 	if res.CPUMs > 1000 {
 		ck.t.slow = append(ck.t.slow, slowRec{res.CPUMs, res.DurMs, res.Code, c.Key()})
 	}
@@ -590,9 +662,17 @@ func confirm(c Case, want func(o batchOutcome) (sig, desc string, bad bool)) ver
 	}
 	v.ok = v.n == confirmRuns
 	if v.ok {
+		// the mechanism class (before '@') must agree; the frame after '@' is taken from the majority
+		cnt := map[string]int{}
 		for _, o := range outs {
-			if o.sig != v.sig {
-				v.ok = false // different mechanisms: not a stable reproduction
+			cnt[o.sig]++
+			if strings.SplitN(o.sig, "@", 2)[0] != strings.SplitN(v.sig, "@", 2)[0] {
+				v.ok = false
+			}
+		}
+		for _, o := range outs {
+			if cnt[o.sig] > cnt[v.sig] {
+				v.sig, v.desc = o.sig, o.desc
 			}
 		}
 	}
@@ -843,6 +923,10 @@ func (ck *checker) runCases(pp **proc, cases []Case) bool {
 			if o.end != nil && o.end.Recycle {
 				(*pp).close()
 				*pp = nil
+				if done < len(cases) {
+					cases = cases[done:] // the worker stopped early to be replaced (memory): the rest goes to a new one
+					continue
+				}
 			}
 			return false
 		}
@@ -896,7 +980,7 @@ func Run(o *core.Options) int {
 		"a verdict needs 3/3 reproductions of the case alone in a fresh worker; anything less is recorded as an anomaly")
 	r.Set("alphabet", map[string]any{"strings": strAlpha, "token_fields_extra": tokAlpha, "map_keys": keyAlpha, "lists": listOps, "maps": mapOps, "messages": msgOps,
 		"struct": structOps(o.Thorough()), "userset": usersetNestOps(o.Thorough()), "condition_param_type": paramTypeNestOps(o.Thorough()), "stored_tuple_strings": tupAlpha})
-	ck := &checker{r: r, t: &tally{codes: map[string]int64{}, perRPC: map[string]int64{}, perKind: map[string]int64{}}, pseen: map[string]bool{}, probes: map[string]*probeOutcome{}}
+	ck := &checker{r: r, t: &tally{codes: map[string]int64{}, perRPC: map[string]int64{}, perKind: map[string]int64{}, cpuBy: map[string]int64{}}, pseen: map[string]bool{}, probes: map[string]*probeOutcome{}}
 
 	if o.Replay != "" {
 		var c Case
@@ -917,6 +1001,7 @@ func Run(o *core.Options) int {
 				r.Violate(v.sig, v.desc, c)
 			} else {
 				r.Anomaly(map[string]any{"case": c, "reproduced": v.n})
+				fmt.Printf("replay: first run %s (%s CPU); reproduced %d/%d alone -> anomaly, no verdict\n", ob.death, ob.hangCPU.Round(time.Second), v.n, confirmRuns)
 			}
 		} else if ob.results[0] != nil {
 			ck.account(c, ob.results[0])
@@ -980,6 +1065,14 @@ func Run(o *core.Options) int {
 	}
 	aDone := make(chan struct{})
 	go func() {
+		// the decisive (expected not to return) parameters of the cyclic scenarios start early, one case per batch
+		enumerate(o.Thorough(), func(c Case) {
+			if heavyCyclic(c) {
+				count(c)
+				pa.Add(1)
+				pch <- []Case{c}
+			}
+		})
 		for _, kind := range []string{"model", "stored-model"} {
 			modelProbes(o.Thorough(), kind, snapshot(), func(c Case) {
 				count(c)
@@ -993,12 +1086,17 @@ func Run(o *core.Options) int {
 	}()
 	// phase B: everything that does not depend on phase A
 	cur := make([]Case, 0, batchSize)
-	emit := func(c Case) {
+	emitAll := func(c Case) {
 		count(c)
 		cur = append(cur, c)
 		if len(cur) == batchSize {
 			ch <- cur
 			cur = make([]Case, 0, batchSize)
+		}
+	}
+	emit := func(c Case) {
+		if !heavyCyclic(c) {
+			emitAll(c)
 		}
 	}
 	enumerate(o.Thorough(), emit)
@@ -1030,6 +1128,7 @@ func Run(o *core.Options) int {
 	sort.Slice(t.slow, func(i, j int) bool { return t.slow[i].CPUMs > t.slow[j].CPUMs })
 	r.Set("cases_over_1s_cpu", len(t.slow))
 	r.Set("worker_cpu_seconds_on_answered_cases", t.cpuMs/1000)
+	r.Set("worker_cpu_ms_by", t.cpuBy)
 	if len(t.slow) > 12 {
 		t.slow = t.slow[:12]
 	}
